@@ -187,16 +187,21 @@ func (pq *KeyGroupPriorityQueue) loadFromDB() {
 	prefix[2] = 0x01 // Schema byte
 
 	var err error
+	stoppedEarly := false
 	for entry := range pq.db.ScanPrefix(prefix, &err) {
 		pq.cache.Push(entry.Key())
 		if pq.cache.IsFull() {
+			stoppedEarly = true
 			break
 		}
 	}
 	if err != nil {
 		panic(err)
 	}
-	pq.allDataInCache = true
+
+	// Only a scan that reached the end has loaded everything. After a partial
+	// load the cache must be refilled from the DB once it is drained.
+	pq.allDataInCache = !stoppedEarly
 }
 
 var _ ds.QueuePartition[[]byte] = &KeyGroupPriorityQueue{}
